@@ -948,6 +948,42 @@ func (h *harness) streamVersusLogout() {
 	}
 }
 
+// logoutWithoutDatabase (direct): logging out needs nothing but the session table. A logout that arrives while the user
+// database cannot be opened (its directory is away for a moment) still ends the session: the cookie is refused afterwards.
+func (h *harness) logoutWithoutDatabase() {
+	h.begin()
+	sid := h.mustLogin()
+	if sid < 0 {
+		h.end("logout-without-database")
+		return
+	}
+	cookie := "reservoir.sid=" + h.sidStr[sid]
+	plain := func(method, path string) int {
+		rq, _ := http.NewRequest(method, h.base+path, nil)
+		rq.Header.Set("Cookie", cookie)
+		resp, err := h.client.Do(rq)
+		if err != nil {
+			return -1
+		}
+		io.Copy(io.Discard, resp.Body)
+		resp.Body.Close()
+		return resp.StatusCode
+	}
+	if err := os.Rename("var", "var.offline"); err != nil {
+		h.end("logout-without-database")
+		return
+	}
+	out := plain("POST", "/api/auth/logout")
+	os.Rename("var.offline", "var")
+	me := plain("GET", "/api/auth/me")
+	h.meta.Count("logout_without_database", fmt.Sprintf("logout=%d me=%d", out, me))
+	if me != 401 {
+		h.meta.DirectFail(map[string]any{"kind": "logged-out-session-accepted", "what": "a logout sent while the user database could not be opened did not end the session: the cookie is accepted afterwards",
+			"logout_status": out, "GET /api/auth/me afterwards": me})
+	}
+	h.end("logout-without-database")
+}
+
 // G5: random histories over the whole alphabet
 func (h *harness) randomHistory() {
 	h.begin()
@@ -1157,6 +1193,7 @@ func main() {
 		h.randomHistory()
 	}
 	h.streamVersusLogout()
+	h.logoutWithoutDatabase()
 	h.w.Flush()
 	h.meta.Exhaustive = false
 	h.meta.Write(*flagOut, h.w.Files)
